@@ -15,6 +15,9 @@ HARNESSES = [
     {"name": "main", "src": "harness.cpp", "flags": ["-O1"] + _COMMON},
     {"name": "asan", "src": "harness.cpp",
      "flags": ["-O1", "-g0", "-fsanitize=address,undefined", "-fno-sanitize-recover=all", "-fno-omit-frame-pointer"] + _COMMON},
+    # the fixed table of harness.cpp evaluated by GCC's constant evaluator (UB-exact: an out-of-bounds access or a
+    # signed overflow in constant evaluation makes THIS variant fail to compile, the other two still run)
+    {"name": "ct", "src": "harness.cpp", "flags": ["-O2", "-DC18_CT=1"] + _COMMON},
 ]
 
 RULE = ("cctype: every argument in [-1,255] x 14 functions; cwctype: 0..0x2FF, surrogate/BMP-end/plane-end windows, WEOF; "
